@@ -108,7 +108,9 @@ def scenarios(rng, root):
     def mk_m2(serial):
         def run(outdir):
             from amr_kitchen.mandoline import Mandoline
-            return Mandoline(p2, fields=['all'], serial=serial, verbose=0).slice(fformat='return')
+            # two successive slices cut with one object (the state the first leaves behind must not depend on the mode)
+            m = Mandoline(p2, fields=['all'], serial=serial, verbose=0)
+            return [m.slice(fformat='return'), m.slice(fformat='return')]
         return run
     sc.append(('mandoline 2D', mk_m2(False), mk_m2(True)))
 
@@ -117,8 +119,8 @@ def scenarios(rng, root):
     def mk_m3(serial):
         def run(outdir):
             from amr_kitchen.mandoline import Mandoline
-            o = Mandoline(p3, fields=[keys3[1], 'grid_level'], serial=serial, verbose=0).slice(normal=2, pos=pos, fformat='return')
-            return o
+            m = Mandoline(p3, fields=[keys3[1], 'grid_level'], serial=serial, verbose=0)
+            return [m.slice(normal=2, pos=pos, fformat='return'), m.slice(normal=1, pos=None, fformat='return')]
         return run
     sc.append(('mandoline 3D slice', mk_m3(False), mk_m3(True)))
 
@@ -180,13 +182,21 @@ def run_case(seed):
     # each seed takes a share of the scenarios so that the work is spread over the workers
     share = [s for k, s in enumerate(scs) if k % 4 == seed % 4]
     for name, run, serial_run in share:
-        def execute(policy, sd, tag, fn=None, audit=False):
+        def execute(policy, sd, tag, fn=None, audit=False, ncpu=None):
+            from unittest import mock
             outdir = os.path.join(root, 'out_' + tag)
             core.shutil.rmtree(outdir, ignore_errors=True)
             os.makedirs(outdir)
             core.set_policy(policy, sd, audit=audit)
             buf = io.StringIO()
-            with contextlib.redirect_stdout(buf), contextlib.redirect_stderr(buf):
+            with contextlib.ExitStack() as stack:
+                stack.enter_context(contextlib.redirect_stdout(buf))
+                stack.enter_context(contextlib.redirect_stderr(buf))
+                if ncpu is not None:
+                    # the number of CPUs the tools see (they size pools and batches from it)
+                    import multiprocessing
+                    stack.enter_context(mock.patch.object(multiprocessing, 'cpu_count', lambda: ncpu))
+                    stack.enter_context(mock.patch.object(os, 'cpu_count', lambda: ncpu))
                 res = core.outcome(lambda: (fn or run)(outdir))
             log = list(core.CPool.log)
             core.set_policy('identity', 0)
@@ -230,6 +240,14 @@ def run_case(seed):
             if obs != base:
                 out['violations'].append(dict(desc, kind='serial-differs',
                                               what=f"{name}: the serial mode and the parallel mode give different results"))
+        for ncpu in (1, 3):
+            obs, _ = execute('identity', 0, f'cpu{ncpu}', ncpu=ncpu)
+            out['evals'] += 1
+            count("schedule=other-cpu-count")
+            if obs != base:
+                out['violations'].append(dict(desc, kind='cpu-count-dependent',
+                                              what=f"{name}: with {ncpu} CPU(s) visible the results differ from the run on this machine"))
+                break
         if thorough and seed % 3 == 0:
             for nw in (1, 2, 16):
                 core.install_pool('real')
